@@ -20,6 +20,7 @@ OBLIGATIONS = [
     "Pkgcore.C18.merge_places_contents_counterexample_symoverdir",
     "Pkgcore.C18.merge_frame",
     "Pkgcore.C18.hardlink_groups",
+    "Pkgcore.C18.sgid_dir_group_inherited",
     "Pkgcore.C18.merge_log_consistent",
     "Pkgcore.C18.frame_bounded_iff",
 ]
@@ -32,13 +33,20 @@ TRUSTED = [
 ASSUMPTIONS = [
     "literal paths in the Lean model: cases with a symlinked *ancestor* directory are checked on the real code against the property directly (python oracle + Lean spec on realpath-resolved locations), not against the model",
     "directory mtimes are outside the observable (POSIX updates them whenever an entry is created in the directory); checked only for directories that receive no entry",
-    "single device (no EXDEV), no setgid directories, no device nodes, file data below the 32 KiB transfer window, no concurrent writers",
+    "single device (no EXDEV), no device nodes, file data below the 32 KiB transfer window, no concurrent writers; set-group-ID "
+    "directories are modelled (group and bit inheritance of what is created inside, snakeoil's re-chmod of the last directory it makes "
+    "below one); chown(2) clearing set-uid/set-gid of a non-directory is not in the model — the modelled code only ever chowns objects "
+    "it has just created (mode 0644/0666 & ~umask) or directories, which the call-by-call comparison would show otherwise",
     "contents entries carry all of mode/uid/gid/mtime (as a package image does)",
 ]
 RULE = ("random contents trees (directories, regular files incl. hard-link groups with equal/unequal attributes, symlinks to files/dirs/dangling, "
         "fifos, odd names such as 'x#new', ' ', unicode) merged into random pre-existing roots (same-type, different-type, dangling and "
-        "directory symlinks, stale '#new' files, unrelated files) through merge_contents with and without offset; non-trivial = the merge "
-        "succeeds, has at least 3 entries and at least one entry lands on a pre-existing path")
+        "directory symlinks, stale '#new' files, unrelated files, live set-uid/set-gid files, set-group-ID and sticky directories owned by "
+        "groups other than the merging process') through merge_contents with and without offset; shared directories in the style of "
+        "/var/games (set-group-ID, foreign group; live, shipped or both) with entries recorded for the process' own identity, the "
+        "directory's group or a third party; when model and code disagree on a case, the property is evaluated on the inputs next to it "
+        "(other offset mode, re-rooted below a set-group-ID directory, owners = / != process identity, fresh install, re-merge, single "
+        "entries); non-trivial = the merge succeeds, has at least 3 entries and at least one entry lands on a pre-existing path")
 
 T_CUT = 1_200_000_000      # mtimes above this are 'now' (never set by the code under test) -> canonical 0
 NAMES = ["a", "b", "c", "d", "lib", "lib64", "bin", "f.txt", "x y", "ü", "a#new", "b#new", "-", ".h"]
@@ -60,8 +68,9 @@ class Recorder:
     'dies' (all later mutating calls raise Crash too; a crashing write stores half its data).  eio_at=k: the
     k-th call fails with EIO instead (the code's own error handling then runs)."""
 
-    def __init__(self, root, crash_at=None, eio_at=None):
+    def __init__(self, root, crash_at=None, eio_at=None, aliases=()):
         self.root = root
+        self.aliases = tuple(aliases)     # other spellings of the root (e.g. a symlink leading to it)
         self.ops = []
         self.crash_at, self.eio_at = crash_at, eio_at
         self.crashed = False
@@ -75,12 +84,17 @@ class Recorder:
         if isinstance(p, bytes):
             p = os.fsdecode(p)
         p = os.path.normpath(p)
-        if p == self.root:
-            return []
-        if p.startswith(self.root + "/"):
-            return p[len(self.root) + 1:].split("/")
+        for r in (self.root,) + self.aliases:
+            if p == r:
+                return []
+            if p.startswith(r + "/"):
+                return p[len(r) + 1:].split("/")
         self.outside.append(p)
         return ["!outside", p]
+
+    def inside(self, p):
+        p = os.path.normpath(p) + "/"
+        return any(p.startswith(r + "/") for r in (self.root,) + self.aliases)
 
     def umask(self):
         um = os.umask(0)
@@ -158,7 +172,7 @@ class Recorder:
             if isinstance(file, int) or not any(c in mode for c in "wax+"):
                 return R.real_open(file, mode, *a, **kw)
             path = os.fspath(file)
-            if not (os.path.normpath(path) + "/").startswith(R.root + "/"):
+            if not R.inside(path):
                 return R.real_open(file, mode, *a, **kw)      # e.g. the engine's own tempdir
             if "b" not in mode:
                 raise RuntimeError("text-mode write under the scratch root is not modelled: %r %r" % (path, mode))
@@ -281,26 +295,31 @@ class Sandbox:
         for nd in tree:
             p = self.path(nd["p"])
             k = nd["k"]
+            if k == "file" and nd.get("link_to") is not None:
+                os.link(self.path(nd["link_to"]), p)
+                continue
+            # create; owner FIRST, then permissions and mtime: chown(2) clears set-uid/set-gid on non-directories (for
+            # root as well), so the other order silently turns a pre-existing 04711 file into a 0711 one; and what is
+            # made inside a set-group-ID directory starts with the directory's group
             if k == "dir":
                 os.mkdir(p)
-                os.chmod(p, nd["mode"])
             elif k == "file":
-                if nd.get("link_to") is not None:
-                    os.link(self.path(nd["link_to"]), p)
-                    continue
                 with open(p, "wb") as f:
                     f.write(bytes.fromhex(nd["data"]))
-                os.chmod(p, nd["mode"])
-                os.utime(p, (nd["mtime"], nd["mtime"]))
             elif k == "sym":
                 os.symlink(nd["target"], p)
-                os.utime(p, (nd["mtime"], nd["mtime"]), follow_symlinks=False)
             elif k == "fifo":
                 os.mkfifo(p)
-                os.chmod(p, nd["mode"])
-                os.utime(p, (nd["mtime"], nd["mtime"]))
             if CAN_CHOWN:
                 os.lchown(p, nd["uid"], nd["gid"])
+            elif k != "sym" and os.lstat(p).st_gid != MY_GID:
+                os.lchown(p, -1, MY_GID)
+            if k != "sym":
+                os.chmod(p, nd["mode"])
+            if k == "sym":
+                os.utime(p, (nd["mtime"], nd["mtime"]), follow_symlinks=False)
+            elif k != "dir":
+                os.utime(p, (nd["mtime"], nd["mtime"]))
         # keep-alive links
         for dp, dns, fns in os.walk(self.root):
             for n in fns + [d for d in dns if os.path.islink(os.path.join(dp, d))]:
@@ -431,10 +450,10 @@ def gen_pre(rng, size=None):
         k = rng.random()
         nd = {"p": list(p), "uid": uid, "gid": gid, "mtime": rng.choice([5, 1000, 77777, 1000000000])}
         if k < 0.4:
-            nd.update(k="dir", mode=rng.choice([0o755, 0o755, 0o700, 0o775, 0o711]))
+            nd.update(k="dir", mode=rng.choice([0o755, 0o755, 0o700, 0o775, 0o711, 0o2775, 0o2755, 0o3777]))
             dirs.append(p)
         elif k < 0.7:
-            nd.update(k="file", data=gen_data(rng), mode=rng.choice([0o644, 0o600, 0o755, 0o444]))
+            nd.update(k="file", data=gen_data(rng), mode=rng.choice([0o644, 0o600, 0o755, 0o444, 0o4755, 0o2755]))
             if files and rng.random() < 0.2:
                 nd["link_to"] = list(rng.choice(files))
             files.append(p)
@@ -479,7 +498,7 @@ def gen_entries(rng, pre, wellformed=True):
         if p in ents or p == () or len(p) > 5:
             continue
         uid, gid = gen_owner(rng)
-        e = {"p": list(p), "mode": rng.choice([0o644, 0o755, 0o600, 0o4711, 0o664, 0o750]), "uid": uid, "gid": gid,
+        e = {"p": list(p), "mode": rng.choice([0o644, 0o755, 0o600, 0o4711, 0o664, 0o750, 0o2755]), "uid": uid, "gid": gid,
              "mtime": rng.choice([7, 1234, 1000, 999999999, 31337])}
         k = rng.random()
         have = pre_kind.get(p)
@@ -488,7 +507,7 @@ def gen_entries(rng, pre, wellformed=True):
         elif wellformed and have in ("file", "fifo") and k < 0.3 and rng.random() < 0.9:
             k = 0.5
         if k < 0.3:
-            e.update(k="dir", mode=rng.choice([0o755, 0o755, 0o700, 0o775, 0]))
+            e.update(k="dir", mode=rng.choice([0o755, 0o755, 0o700, 0o775, 0, 0o2775, 0o1777]))
             dirs.append(p)
         elif k < 0.72:
             e.update(k="reg", data=gen_data(rng), key=None, src=rng.choice(["mem", "file"]))
@@ -541,7 +560,7 @@ def gen_package(rng, top=(), nmax=7, src_file=0.7, twins=0.0):
              "mtime": rng.choice([7, 1234, 31337, 999999999])}
         k = rng.random()
         if k < 0.38:
-            e.update(k="dir", mode=rng.choice([0o755, 0o700, 0o775]))
+            e.update(k="dir", mode=rng.choice([0o755, 0o700, 0o775, 0o2775]))
             dirs.append(p)
             if rng.random() < twins:
                 # a sibling whose name extends this one (man1 / man1p, python3.1 / python3.11), both populated
@@ -596,7 +615,7 @@ def next_build(rng, entries, top=()):
                 continue
             if r < 0.3:
                 e["uid"], e["gid"] = gen_owner(rng)
-                e["mode"] = rng.choice([0o755, 0o700, 0o775])
+                e["mode"] = rng.choice([0o755, 0o700, 0o775, 0o2755])
             out.append(e)
             continue
         r = rng.random()
@@ -656,6 +675,74 @@ def gen_remerge(rng, nmax=5):
         have.add(p)
         pre.append(nd)
     return pre, next_build(rng, b1)
+
+
+FOREIGN_GIDS = [35, 100, 1234]
+
+
+def gen_sgid(rng):
+    """(pre tree, entries): a shared directory in the style of /var/games (root:games 02775), /var/mail, /usr/local/share/<site>:
+    a set-group-ID directory of a group that is not the merging process' — already on the live root (with or without files
+    of an earlier build), shipped by the package, or both — and entries below it recorded for the process' own identity, for
+    the directory's group, or for somebody else: files (hard-link groups too), symlinks, fifos, sub-directories, files
+    below parents that are not recorded.  What is *created* in such a directory starts with the directory's group."""
+    g = rng.choice(FOREIGN_GIDS) if CAN_CHOWN else MY_GID
+    top = rng.choice([["games"], ["var", "games"], ["srv", "x y"], ["a"]])
+    dmode = rng.choice([0o2775, 0o2775, 0o2755, 0o3777, 0o2770])
+    pre, ents = [], []
+    live = rng.random() < 0.75
+    shipped = (not live) or rng.random() < 0.6
+    for i in range(1, len(top)):
+        pre.append(_d(top[:i]))
+        if rng.random() < 0.7:
+            ents.append(_e(top[:i], "dir", mtime=1111))
+    if live:
+        pre.append(_d(top, mode=dmode, uid=MY_UID, gid=g))
+    else:
+        pre = pre if rng.random() < 0.7 else []
+    if shipped:
+        ents.append(_e(top, "dir", mode=dmode if rng.random() < 0.8 else 0o755, uid=MY_UID, gid=g if rng.random() < 0.8 else MY_GID, mtime=1111))
+    owners = [(MY_UID, MY_GID), (MY_UID, MY_GID), (MY_UID, g)] + ([gen_owner(rng)] if CAN_CHOWN else [])
+    names = rng.sample(["score", "record", "new", "l", "p", "sub", "x y", "save#new", "ü"], rng.randint(2, 6))
+    group = None
+    for nm in names:
+        uid, gid = rng.choice(owners)
+        k = rng.random()
+        loc = top + [nm]
+        if k < 0.12:
+            loc = top + [rng.choice(["auto", "auto2"])] + ([rng.choice(["deep", "d2"])] if rng.random() < 0.5 else []) + [nm]     # unrecorded parents
+        if k < 0.5:
+            e = _e(loc, "reg", data=gen_data(rng), src=rng.choice(["mem", "file"]), mode=rng.choice([0o644, 0o664, 0o2755, 0o4711, 0o600]),
+                   uid=uid, gid=gid, mtime=rng.choice([7, 1234, 31337]))
+            if rng.random() < 0.35:
+                if group is None:
+                    group = dict(e, key=[1, rng.randint(2, 6)])
+                e = dict(group, p=loc) if rng.random() < 0.8 else dict(e, key=group["key"], data=group["data"])
+        elif k < 0.65:
+            e = _e(loc, "sym", target=rng.choice(["score", "../x", "nowhere"]), uid=uid, gid=gid)
+        elif k < 0.75:
+            e = _e(loc, "fifo", mode=rng.choice([0o660, 0o600]), uid=uid, gid=gid)
+        else:
+            e = _e(loc, "dir", mode=rng.choice([0o755, 0o2775, 0o775, 0o700]), uid=uid, gid=gid)
+            if rng.random() < 0.7:
+                u2, g2 = rng.choice(owners)
+                ents.append(_e(loc + [rng.choice(["in", "f.txt"])], "reg", data=gen_data(rng), uid=u2, gid=g2))
+        ents.append(e)
+        if live and e["k"] != "dir" and len(loc) == len(top) + 1 and rng.random() < 0.45:
+            # an earlier build left something there (same or other type, the directory's group)
+            pre.append(rng.choice([_f(loc, "6f6c64", mode=0o664, uid=MY_UID, gid=g), _f(loc, "6f6c64", mode=0o2755, uid=MY_UID, gid=g),
+                                   _s(loc, "nowhere", uid=MY_UID, gid=g), dict(_f(loc, uid=MY_UID, gid=g), k="fifo")]))
+        elif live and e["k"] == "dir" and rng.random() < 0.3:
+            pre.append(_d(loc, mode=rng.choice([0o2775, 0o755]), uid=MY_UID, gid=g))
+    seen, out = set(), []
+    for e in ents:
+        if tuple(e["p"]) not in seen:
+            seen.add(tuple(e["p"]))
+            out.append(e)
+    nondirs = {tuple(e["p"]) for e in out if e["k"] != "dir"}
+    out = [e for e in out if not any(tuple(e["p"][:i]) in nondirs for i in range(1, len(e["p"])))]
+    rng.shuffle(out)
+    return pre, out
 
 
 def entry_json(e):
@@ -881,6 +968,10 @@ def python_oracle(sb, pre_snap, post_snap, entries, rels):
     return bad
 
 
+# a group that is not the merging process' (needs the privilege to give files away; otherwise the cases degenerate)
+FG = 35 if CAN_CHOWN else MY_GID
+
+
 # hand-written boundary cases: (pre tree, entries, with_offset)
 def _f(p, data="aa", **kw):
     d = {"p": p, "k": "file", "data": data, "mode": 0o644, "uid": MY_UID, "gid": MY_GID, "mtime": 1000}
@@ -948,6 +1039,18 @@ CORPUS = [
     ([_f(["a"]), _s(["l"], "a/b/c")], [_e(["l", "x"], "reg")], True),
     # root missing: merge_contents creates the offset
     (None, [_e(["a"], "dir"), _e(["a", "f"], "reg")], True),
+    # a set-group-ID directory of a foreign group on the live root (/var/games root:games 02775): what is created inside
+    # starts with the directory's group; entries recorded for the merging process' own identity must still end up with it
+    ([_d(["games"], mode=0o2775, gid=FG), _f(["games", "score"], "6f6c64", mode=0o664, gid=FG)],
+     [_e(["games"], "dir", mode=0o2775, gid=FG), _e(["games", "score"], "reg"), _e(["games", "new"], "reg", mode=0o4711),
+      _e(["games", "l"], "sym", target="new"), _e(["games", "p"], "fifo"), _e(["games", "sub"], "dir"),
+      _e(["games", "auto", "deep", "f"], "reg", data="")], True),
+    # the same directory shipped by the package into an empty root (created, then populated), hard-link pair inside
+    ([], [_e(["games"], "dir", mode=0o2775, gid=FG), _e(["games", "a"], "reg", key=[1, 7]), _e(["games", "b"], "reg", key=[1, 7]),
+          _e(["games", "sub"], "dir", mode=0o755), _e(["games", "sub", "in"], "reg", gid=FG)], False),
+    # live set-id programs next to what is merged stay as they are (frame), a live set-uid file is replaced by a plain one
+    ([_d(["bin"]), _f(["bin", "su"], "6f", mode=0o4755), _f(["bin", "sg"], "6f", mode=0o2755), _f(["bin", "ls"], "6f", mode=0o755)],
+     [_e(["bin"], "dir"), _e(["bin", "su"], "reg", mode=0o755), _e(["bin", "cp"], "reg", mode=0o6755)], True),
 ]
 
 
@@ -966,6 +1069,21 @@ def small_universe():
                 for off in (True, False):
                     e = _e(["x"], kind, **({"target": "t"} if kind == "sym" else {}))
                     cases.append((occ + st, [e], off, "universe:%s/%s/%s" % (on, sn, kind)))
+    # the same inside a set-group-ID directory of a foreign group, for the process' own identity and for another one;
+    # directly, and below parents that are not recorded
+    for on in ("none", "file", "dangling"):
+        for kind in ("dir", "reg", "sym", "fifo"):
+            for own in ("mine", "other"):
+                for deep in (False, True):
+                    if deep and on != "none":
+                        continue
+                    par = ["g", "m", "n"] if deep else ["g"]
+                    occ = [dict(n, p=par + ["x"], gid=FG) for n in occupants[on]]
+                    kw = {"target": "t"} if kind == "sym" else {}
+                    if own == "other" and CAN_CHOWN:
+                        kw.update(uid=1000, gid=100)
+                    cases.append(([_d(["g"], mode=0o2775, gid=FG)] + occ, [_e(par + ["x"], kind, **kw)], on != "file",
+                                  "universe:sgid/%s/%s/%s%s" % (on, kind, own, "/deep" if deep else "")))
     for a_pre in ("none", "file", "dir"):
         for b_pre in ("none", "file", "dangling"):
             for same in (True, False):
@@ -1021,30 +1139,62 @@ def diff_fs(a, b):
     return out[:4]
 
 
-def run(ctx):
-    rng = ctx.rng
-    cases = [(pre, ents, off, "corpus") for pre, ents, off in CORPUS] + small_universe()
-    if ctx.replay_cases:
-        cases = [(c["pre"], c["entries"], c["offset"], "replay") for c in ctx.replay_cases if "entries" in c] + cases
-    n = ctx.n(800, 9000)
-    for i in range(n):
-        if rng.random() < 0.25:
-            pre, ents = gen_remerge(rng, nmax=7)
-            if ents:
-                cases.append((pre, ents, rng.random() < 0.5, "remerge"))
-            continue
-        pre = gen_pre(rng)
-        wf = rng.random() < 0.85
-        ents = gen_entries(rng, pre, wellformed=wf)
-        if not ents:
-            continue
-        cases.append((pre if rng.random() > 0.04 else None, ents, rng.random() < 0.5, "random"))
+def shift(nodes, top):
+    return [dict(n, p=list(top) + list(n["p"]), **({"link_to": list(top) + list(n["link_to"])} if n.get("link_to") is not None else {}))
+            for n in nodes]
+
+
+def neighbours(rng, pre, ents, off):
+    """inputs next to a case on which model and code disagreed — the same merge with one circumstance changed at a time
+    (and the owner/group-inheritance pair together): the other offset mode; the whole tree re-rooted below a
+    set-group-ID directory of a foreign group (every creation then starts with a group that is not the process');
+    every entry recorded for the process' own identity / for a foreign one; a fresh install (nothing at the entry
+    locations) and a re-merge (the entries already installed); each non-directory entry alone with its directories.
+    The property itself is evaluated on the real code for each of them."""
+    out = []
+    pre0 = pre or []
+
+    def add(tag, p_, e_, o_=off):
+        if e_:
+            out.append((p_, e_, o_, "near:" + tag))
+
+    add("offset", pre, ents, not off)
+    sg = [_d(["sg"], mode=0o2775, gid=FG)]
+    mine = [dict(e, uid=MY_UID, gid=MY_GID) for e in ents]
+    other = [dict(e, uid=1000 if CAN_CHOWN else MY_UID, gid=100 if CAN_CHOWN else MY_GID) for e in ents]
+    add("sgid", sg + shift(pre0, ["sg"]), shift(ents, ["sg"]))
+    add("mine", pre, mine)
+    add("other", pre, other)
+    add("sgid+mine", sg + shift(pre0, ["sg"]), shift(mine, ["sg"]))
+    add("sgid+mine+fresh", sg, shift(mine, ["sg"]))
+    add("sgid+other", sg + shift(pre0, ["sg"]), shift(other, ["sg"]))
+    locs = {tuple(e["p"]) for e in ents}
+    add("fresh", [n for n in pre0 if not any(tuple(n["p"][:i]) in locs for i in range(1, len(n["p"]) + 1))
+                  and not (n.get("link_to") is not None and tuple(n["link_to"]) in locs)], ents)
+    tree_ok = all(any(tuple(x["p"]) == tuple(e["p"][:i]) and x["k"] == "dir" for x in ents) for e in ents for i in range(1, len(e["p"])))
+    if tree_ok and len({tuple(e["p"]) for e in ents}) == len(ents):
+        add("remerge", nodes_of(ents), ents)
+        add("sgid+mine+remerge", sg + shift(nodes_of([dict(e, gid=FG) for e in ents]), ["sg"]), shift(mine, ["sg"]))
+    nondirs = [e for e in ents if e["k"] != "dir"]
+    for e in rng.sample(nondirs, min(3, len(nondirs))):
+        alone = [x for x in ents if x["k"] == "dir" and x["p"] == e["p"][:len(x["p"])]] + [e]
+        add("single", pre, alone)
+        add("sgid+mine+single", sg + shift(pre0, ["sg"]), shift([dict(x, uid=MY_UID, gid=MY_GID) for x in alone], ["sg"]))
+    return out
+
+
+def process(ctx, cases, probe=False):
+    """run the cases for real, ask the model, judge.  probe=True: only the property itself (edge C) is reported — used for
+    the inputs next to a model/implementation disagreement.  Returns the cases on which model and code disagreed."""
+    disagreed = []
     results, reqs = [], []
-    for pre, ents, off, origin in cases:
+    cases = list(cases)
+    for n_, (pre, ents, off, origin) in enumerate(cases):
         sb = Sandbox()
         try:
             if pre is None and not off:
                 off = True
+                cases[n_] = (pre, ents, off, origin)
             r = run_case(sb, pre, ents, off)
             r["literal"] = not has_symlinked_ancestor(r["pre"], ents)
             r["oracle"] = []
@@ -1076,8 +1226,13 @@ def run(ctx):
     for idx, ((pre, ents, off, origin), r) in enumerate(zip(cases, results)):
         m, sp = replies[2 * idx], replies[2 * idx + 1]
         case = {"pre": pre, "entries": ents, "offset": off, "origin": origin}
+
+        def mismatch(detail):
+            disagreed.append((pre, ents, off, origin))
+            if not probe:
+                ctx.mismatch(case, detail)
         if m == "bad-op" or sp == "bad-op":
-            ctx.mismatch(case, "driver rejected the request")
+            mismatch("driver rejected the request")
             continue
         res = classify_exc(r["exc"])
         literal = not has_symlinked_ancestor(r["pre"], ents)
@@ -1089,13 +1244,22 @@ def run(ctx):
         ctx.count("result_" + res.split(":")[0])
         ctx.count("entries_%d" % min(len(ents), 9))
         ctx.count("literal" if literal else "symlinked_ancestor")
+        ctx.count("origin_" + origin.split(":")[0] + (":" + origin.split(":")[1].split("/")[0] if origin.startswith("universe:") else ""))
         if r.get("aliased"):
             ctx.count("symlinked_case_with_aliasing_or_complex_links_not_claimed")
         ctx.count("offset" if off else "no_offset")
         for e in ents:
-            ctx.count("entry_" + e["k"] + ("_over_" + r["pre"][tuple(e["p"])]["k"] if tuple(e["p"]) in r["pre"] else "_new"))
+            have = r["pre"].get(tuple(e["p"]))
+            ctx.count("entry_" + e["k"] + ("_over_" + have["k"] if have else "_new"))
             if e["k"] == "reg" and e["key"]:
                 ctx.count("reg_with_inode_key")
+            par = r["pre"].get(tuple(e["p"][:-1]))
+            if par is not None and par["k"] == "dir" and par["mode"] & 0o2000:
+                ctx.count("entry_in_live_sgid_dir" + ("_of_foreign_group" if par["gid"] != MY_GID else "")
+                          + ("_recorded_for_own_identity" if (e["uid"], e["gid"]) == (MY_UID, MY_GID) else ""))
+        for nd in r["pre"].values():
+            if nd["k"] in ("file", "fifo") and nd["mode"] & 0o6000:
+                ctx.count("live_setid_file")
         for g in guards:
             ctx.count("guard_fail_" + g)
         for o in r["ops"]:
@@ -1118,6 +1282,8 @@ def run(ctx):
             detail = []
             if fails:
                 detail.append("Lean spec clauses failing on the real before/after snapshots: %s" % fails)
+                if literal:
+                    detail.append("direct evaluation: " + "; ".join(explain(r["pre"], r["post"], ents)[:3]))
             if r["oracle"]:
                 detail.append("direct evaluation: " + "; ".join(r["oracle"][:3]))
             if detail:
@@ -1129,25 +1295,119 @@ def run(ctx):
         if literal:
             ctx.traces += 1
             if m["result"] != res:
-                ctx.mismatch(case, "real merge: %s, model: %s" % (res, m["result"]))
+                mismatch("real merge: %s, model: %s" % (res, m["result"]))
                 continue
             rt, mt = model_trace(r["ops"]), m["trace"]
             if rt != mt:
                 k = next((i for i, (a, b) in enumerate(zip(rt, mt)) if a != b), min(len(rt), len(mt)))
-                ctx.mismatch(case, "system-call traces differ at #%d: real %s, model %s" % (k, rt[k:k + 2], mt[k:k + 2]))
+                mismatch("system-call traces differ at #%d: real %s, model %s" % (k, rt[k:k + 2], mt[k:k + 2]))
                 continue
             real_fin = canon_fs(r["postj"], r["npre"])
             mod_fin = canon_fs(m["fs"], r["npre"])
             if real_fin != mod_fin:
-                ctx.mismatch(case, "final snapshots differ: " + "; ".join(diff_fs(real_fin, mod_fin)))
+                mismatch("final snapshots differ: " + "; ".join(diff_fs(real_fin, mod_fin)))
             if ok and not guards and m["placed"]:
-                ctx.mismatch(case, "model run violates the proved theorem?! %s" % m["placed"])
+                mismatch("model run violates the proved theorem?! %s" % m["placed"])
+    return disagreed
+
+
+def explain(pre_snap, post_snap, ents):
+    """human-readable account of what is wrong at the entry locations (literal paths)"""
+    bad = []
+    for e in ents:
+        nd = post_snap.get(tuple(e["p"]))
+        want = {"reg": "file", "sym": "sym", "fifo": "fifo", "dir": "dir"}[e["k"]]
+        if nd is None:
+            bad.append("entry %r missing afterwards" % (e["p"],))
+        elif nd["k"] != want:
+            bad.append("entry %r has type %s, recorded %s" % (e["p"], nd["k"], want))
+        else:
+            old = pre_snap.get(tuple(e["p"]))
+            if (nd["uid"], nd["gid"]) != (e["uid"], e["gid"]):
+                bad.append("entry %r (%s) has owner %d:%d, recorded %d:%d" % (e["p"], e["k"], nd["uid"], nd["gid"], e["uid"], e["gid"]))
+            if want == "dir" and old is not None and old["k"] == "dir":
+                if nd["mode"] != old["mode"]:
+                    bad.append("pre-existing directory %r changed its permissions %o -> %o" % (e["p"], old["mode"], nd["mode"]))
+            elif want != "sym" and nd["mode"] != e["mode"]:
+                bad.append("entry %r (%s) has mode %o, recorded %o" % (e["p"], e["k"], nd["mode"], e["mode"]))
+            if want == "file" and nd["data"] != e["data"]:
+                bad.append("entry %r has other data than recorded" % (e["p"],))
+            if want == "sym" and nd["target"] != e["target"]:
+                bad.append("entry %r has target %r, recorded %r" % (e["p"], nd["target"], e["target"]))
+            if want != "dir" and nd["mtime"] != e["mtime"]:
+                bad.append("entry %r has mtime %d, recorded %d" % (e["p"], nd["mtime"], e["mtime"]))
+    regs = [e for e in ents if e["k"] == "reg" and e.get("key")]
+    for i, a in enumerate(regs):
+        for b in regs[i + 1:]:
+            if a["key"] == b["key"] and all(a[f] == b[f] for f in ("uid", "gid", "mode", "mtime")):
+                na, nb = post_snap.get(tuple(a["p"])), post_snap.get(tuple(b["p"]))
+                if na and nb and na["id"] != nb["id"]:
+                    bad.append("entries %r and %r shared an inode in the source (and agree on owner, mode, mtime) but are two files" % (a["p"], b["p"]))
+    locs = {tuple(e["p"]) for e in ents}
+    allowed = set(locs)
+    for q in locs:
+        allowed.update(q[:i] for i in range(len(q)) if q[:i] not in pre_snap)
+        if q in pre_snap:
+            allowed.add(q[:-1] + (q[-1] + "#new",))
+    for q in sorted(set(pre_snap) | set(post_snap)):
+        if q in allowed:
+            continue
+        a, b = pre_snap.get(q), post_snap.get(q)
+        ka = a and {k: v for k, v in a.items() if not (k == "mtime" and a["k"] == "dir")}
+        kb = b and {k: v for k, v in b.items() if not (k == "mtime" and b["k"] == "dir")}
+        if ka != kb:
+            bad.append("path %r outside the contents was %s" % (list(q), "created" if a is None else "removed" if b is None else "changed"))
+    for q in sorted(locs):
+        t = q[:-1] + (q[-1] + "#new",) if q else q
+        if q in pre_snap and t in post_snap and t not in locs:
+            bad.append("temporary %r left behind" % (list(t),))
+    return bad or ["(see the clause names)"]
+
+
+def run(ctx):
+    rng = ctx.rng
+    cases = [(pre, ents, off, "corpus") for pre, ents, off in CORPUS] + small_universe()
+    if ctx.replay_cases:
+        cases = [(c["pre"], c["entries"], c["offset"], "replay") for c in ctx.replay_cases if "entries" in c] + cases
+    n = ctx.n(800, 9000)
+    for i in range(n):
+        g = rng.random()
+        if g < 0.22:
+            pre, ents = gen_remerge(rng, nmax=7)
+            if ents:
+                cases.append((pre, ents, rng.random() < 0.5, "remerge"))
+            continue
+        if g < 0.34:
+            pre, ents = gen_sgid(rng)
+            if ents:
+                cases.append((pre, ents, rng.random() < 0.5, "sgid"))
+            continue
+        pre = gen_pre(rng)
+        wf = rng.random() < 0.85
+        ents = gen_entries(rng, pre, wellformed=wf)
+        if not ents:
+            continue
+        cases.append((pre if rng.random() > 0.04 else None, ents, rng.random() < 0.5, "random"))
+    disagreed = process(ctx, cases)
+    # ---- model and implementation disagree somewhere: is the property itself broken on that input or next to it?
+    if disagreed and not ctx.violations:
+        seen, near = set(), []
+        for pre, ents, off, origin in disagreed[:ctx.n(6, 20)]:
+            for c in neighbours(rng, pre, ents, off):
+                k = repr(c[:3])
+                if k not in seen:
+                    seen.add(k)
+                    near.append(c)
+        ctx.count("inputs_next_to_a_disagreement_evaluated", len(near))
+        process(ctx, near, probe=True)
 
 
 LEVEL_TEXT = ("Kernel-checked Lean 4 theorems about a statement-by-statement model of merge_contents/copyfile/do_link/ensure_perms/mkdir over an "
               "abstract POSIX file system with inode-sharing hard links: for every pre-existing file system, every contents set and every "
               "successful merge, each entry is in place with type, data, target, mode, ownership and mtime, pre-existing directories keep their "
-              "permissions, source inodes are hard-linked, and every other path is unchanged except missing parents and '#new' temporaries. "
+              "permissions, source inodes are hard-linked, and every other path is unchanged except missing parents and '#new' temporaries; the file "
+              "system has set-group-ID directories (what is created inside starts with the directory's group), so the recorded ownership there is "
+              "a consequence of the modelled lchown, not of the creating process' identity. "
               "The model is tied to the code by replaying random merges into scratch roots under os-level interposition and comparing the call "
               "trace (with errnos) and the final snapshot; the Lean specification is also evaluated on the real before/after snapshots.")
 LEVEL_NOTE = ("Partial: literal paths in the model (symlinked ancestor directories are checked on the real code only); two input classes are open "
